@@ -80,6 +80,7 @@ type Universe struct {
 	stateSorts map[string]string
 	typeConsts map[string]bool
 	mapTypes   map[string]*types.Map
+	libPkgs    map[string]*types.Package // imported (non-repo) packages by short name
 }
 
 type structInfo struct {
@@ -112,6 +113,27 @@ func loadUniverse(repo string, specFiles []string) (*Universe, error) {
 			return nil, fmt.Errorf("package %s: %v", p.PkgPath, p.Errors[0])
 		}
 		u.Pkgs[pkgShort(p.Types)] = p
+	}
+	u.libPkgs = map[string]*types.Package{}
+	{
+		seen := map[*packages.Package]bool{}
+		var visit func(p *packages.Package)
+		visit = func(p *packages.Package) {
+			if seen[p] || p.Types == nil {
+				return
+			}
+			seen[p] = true
+			short := pkgShort(p.Types)
+			if _, dup := u.libPkgs[short]; !dup {
+				u.libPkgs[short] = p.Types
+			}
+			for _, imp := range p.Imports {
+				visit(imp)
+			}
+		}
+		for _, p := range pkgs {
+			visit(p)
+		}
 	}
 	u.Specs = newSpecs()
 	for _, f := range specFiles {
